@@ -336,7 +336,9 @@ def _snap_world(ws):
                 "etd": v.estimated_time_of_departure.isoformat() if v.estimated_time_of_departure else None}
           for vid, v in ws.vehicles.items()}
     bs = {bid: {"soc": b.soc} for bid, b in ws.batteries.items()}
-    return {"gcs": gcs, "css": css, "vehicles": vs, "batteries": bs}
+    import keeps
+    return {"gcs": gcs, "css": css, "vehicles": vs, "batteries": bs,
+            "keeps": {"attrs": keeps.gc_attrs(ws), "queue": keeps.queue_digest(ws), "vehicles": keeps.vehicle_attrs(ws)}}   # C07: event-set state + pending queue
 
 
 def run_real(case, timeout_s=120, fault_step=None, scenario_obj=None, collect_ops=True):
